@@ -17,6 +17,21 @@ package main
 //	               every Write / Flush that still arrives (the model's Tick,
 //	               KPingBegin after `returned`)
 //
+//	"flush:pre" | "flush:next:<k>" | "flush:complete"   (SLOW FLUSH, for designs that lock)
+//	               the Flush that follows that write stays open for holdFlush (4 ms):
+//	               with a ping interval of tens of microseconds a keep-alive tick is
+//	               certainly parked on the connection mutex when the critical section
+//	               of that write ends - whatever the transport lets it do then happens
+//	               deterministically (a ping after `complete` if `closed` is set in a
+//	               later critical section)
+//	"flush:close" | "flush:n:<j>"   multipart/mixed (/h/mm/...): the Flush after the write
+//	               of the closing delimiter / the j-th Flush call stays open for 4 ms, so
+//	               the other flusher (ticker goroutine or Done) is parked on the aggregator
+//	               mutex behind it
+//
+// Every gated run also records the kinds of Write calls that entered after a
+// `complete` / closing-delimiter Write had entered (after_final).
+//
 // The underlying writes are serialised by the wrapper's own mutex, and calls
 // arriving after Do returned are not forwarded, so forcing the schedule
 // neither corrupts the bytes nor crashes the process; what is observed is the
@@ -32,6 +47,7 @@ import (
 type gateObs struct {
 	Overlaps    []string `json:"overlaps"`     // "<kind in progress>|<kind entering>"
 	AfterReturn []string `json:"after_return"` // kinds of calls that entered after Do had returned
+	AfterFinal  []string `json:"after_final"`  // kinds of Write calls that entered after the Write of `complete` / of the closing delimiter
 	Held        bool     `json:"held"`         // the targeted call was reached and held
 	Met         bool     `json:"met"`          // ... and another goroutine's write entered while it was held
 }
@@ -45,6 +61,9 @@ type gateWriter struct {
 	mu       sync.Mutex // protects the fields below
 	inflight map[string]int
 	nexts    int
+	flushes  int
+	last     string // kind (and number) of the last Write that entered
+	final    bool   // a `complete` / closing delimiter Write has entered
 	returned bool
 	obs      gateObs
 	arrived  chan string // kinds of calls entering, for the holder
@@ -63,6 +82,16 @@ func kindOf(p []byte) string {
 		return "complete"
 	case s == ":\n\n":
 		return "pre"
+	case s == "--"+mmBoundary+"--\r\n":
+		return "close"
+	case s == "--"+mmBoundary+"\r\n":
+		return "bnd"
+	case strings.HasPrefix(s, "Content-Type:"):
+		return "hdr"
+	case s == "\r\n":
+		return "crlf"
+	case strings.HasPrefix(s, "{"):
+		return "json"
 	}
 	return "other"
 }
@@ -87,6 +116,24 @@ func (g *gateWriter) enter(kind string) (forward bool, holdIt bool) {
 	}
 	if kind == "next" {
 		g.nexts++
+	}
+	if kind == "flush" {
+		g.flushes++
+		if g.hold == "flush:"+g.last || g.hold == "flush:n:"+itoa(g.flushes) {
+			g.obs.Held = true
+			return true, true
+		}
+		return true, false
+	}
+	if g.final {
+		g.obs.AfterFinal = append(g.obs.AfterFinal, kind)
+	}
+	if kind == "complete" || kind == "close" {
+		g.final = true
+	}
+	g.last = kind
+	if kind == "next" {
+		g.last = "next:" + itoa(g.nexts)
 	}
 	switch {
 	case kind == "next" && g.hold == "next:"+itoa(g.nexts), kind == "complete" && g.hold == "complete":
@@ -144,15 +191,21 @@ func (g *gateWriter) Write(p []byte) (int, error) {
 	return g.ResponseWriter.Write(p)
 }
 
+const holdFlush = 4 * time.Millisecond
+
 func (g *gateWriter) Flush() {
-	fwd, _ := g.enter("flush")
+	fwd, hold := g.enter("flush")
 	if !fwd {
 		return
 	}
 	defer g.leave("flush")
 	g.wmu.Lock()
-	defer g.wmu.Unlock()
 	g.fl.Flush()
+	g.wmu.Unlock()
+	if hold {
+		// a slow client: the flush returns late, the caller's critical section stays open
+		time.Sleep(holdFlush)
+	}
 }
 
 // serveGated runs h with the gate writer and applies the "return" hold.
@@ -176,6 +229,9 @@ func serveGated(w http.ResponseWriter, req *http.Request, h http.Handler, hold s
 	}
 	if obs.AfterReturn == nil {
 		obs.AfterReturn = []string{}
+	}
+	if obs.AfterFinal == nil {
+		obs.AfterFinal = []string{}
 	}
 	return obs
 }
